@@ -24,9 +24,12 @@ R = F.R_ORDER
 
 @st.composite
 def cases(draw):
-    h = draw(c11.histories(max_steps=5))
-    probe = draw(st.sampled_from(("other_value", "extra_slot", "missing_slot", "equiv_mod_r", "same", "fill_hidden", "fill_hidden", "tamper")))
-    return {"h": h, "probe": probe, "key": draw(st.integers(0, 7)), "slot": draw(st.integers(0, 7)), "v": draw(c11.value()),
+    h = draw(c11.histories(max_steps=4, force_last=("keygen", "nd_keygen", "qualify", "nd_qualify", "qualify", "nd_qualify")))
+    probe = draw(st.sampled_from(("other_value", "extra_slot", "missing_slot", "equiv_mod_r", "same", "fill_hidden", "fill_hidden", "fill_hidden", "tamper", "flagged_ct")))
+    # the probed key is usually the last one (whose list was generated with many hidden slots)
+    nkeys = sum(1 for s_ in h["steps"] if s_["op"] in ("keygen", "nd_keygen", "qualify", "nd_qualify", "resample"))
+    key = nkeys - 1 if draw(st.integers(0, 4)) else draw(st.integers(0, 7))
+    return {"h": h, "probe": probe, "key": key, "slot": draw(st.integers(0, 7)), "v": draw(c11.value()),
             "via": draw(st.sampled_from(("qualify", "nd_qualify", "adjust"))), "comp": draw(st.sampled_from(("a", "b", "c"))),
             "stream": draw(st.binary(min_size=0, max_size=40)), "seed": draw(st.integers(0, 2**32))}
 
@@ -76,6 +79,24 @@ def check(ctx, lib, c):
             ctx.count(c, not same or probe == "equiv_mod_r", "probe-%s:%s" % (probe, "match" if same else "differ"))
             expect((got == msg) == same, "decrypt/%s/%s" % (probe, "should-decrypt" if same else "decrypted-with-mismatching-pattern"),
                    lambda: "key pattern=%r ciphertext list=%r" % (pat, ent))
+            return
+        if probe == "flagged_ct":
+            # the ciphertext list carries an attribute flagged omitFromKeys WITH a value: the flag concerns keys only, the
+            # ciphertext is bound to every listed attribute (C12 mechanism: product over every listed attribute)
+            others = [i for i in range(l) if i not in dict(fixed)]
+            if not others or v % R == 0:
+                ctx.count(c, False, "probe-flagged_ct:not-applicable")
+                return
+            i = others[slot % len(others)]
+            ent3 = sorted([(a, b, False) for a, b in fixed] + [(i, v, True)])
+            ct = W.encrypt(msg, ex.params, Attrs(ent3))
+            ctx.count(c, True, "probe-flagged_ct")
+            expect(W.decrypt(ct, sk=k["h"]) != msg, "decrypt/flagged-attribute-ignored", lambda: "key pattern=%r opens a ciphertext for %r" % (pat, ent3))
+            plain = sorted(dict(fixed + [(i, v)]).items())
+            ct2 = W.encrypt(msg, ex.params, Attrs(plain))
+            if pat[i] == FREE:
+                nk = W.qualify(ex.params, k["h"], Attrs(plain), l - len(plain), nondelegable=True)
+                expect(W.decrypt(ct, sk=nk) == msg, "decrypt/flagged-attribute-value-changed", lambda: "a key for %r does not open a ciphertext for %r" % (plain, ent3))
             return
         if probe == "fill_hidden":
             hidden = [i for i, s in enumerate(pat) if s == HIDDEN]
